@@ -86,7 +86,7 @@ func runHeap() {
 	for _, v := range []string{"pure", "ctx", "ph"} {
 		sets[v] = newOptSet(v, r, 80)
 	}
-	sizes := []int{4, 5, 6, 7, 8, 9, 13, 16, 31, 64, 69}
+	sizes := []int{4, 5, 6, 7, 8, 9, 13, 16, 31, 69} // 69 = a full 64-entry chunk followed by a 5-entry chunk on the same scratch heap
 	if thorough {
 		sizes = nil
 		for n := 4; n <= 70; n++ {
